@@ -801,3 +801,89 @@ Proof.
   intros T. eapply Permutation_trans; [apply (Hp eq_refl T)|]. rewrite all_exts_flat. unfold contributed, contributed_in.
   rewrite rk_filter by (rewrite all_defs_names; exact DN). rewrite all_defs_contrib. apply Permutation_refl.
 Qed.
+
+(* ---------------------------------------------------------------------------------------- *)
+(* 7. totality (C08): on files as the parser delivers them the merge never dereferences nil  *)
+(* ---------------------------------------------------------------------------------------- *)
+Definition mstate_ok (s : mstate) : Prop := Forall meta_some (ms_raw s) /\ ext_wf_all (flat_map snd (ms_ext s)).
+
+Lemma Forall_assoc_append (P : typedef -> Prop) file td (ext : list (str * list typedef)) :
+  Forall P (flat_map snd ext) -> P td -> Forall P (flat_map snd (assoc_append file td ext)).
+Proof.
+  intros H Ht. unfold assoc_append. destruct (assoc file ext) as [vs|] eqn:Ea.
+  - clear -H Ht Ea. revert Ea. induction ext as [|[k v] ext IH]; cbn [assoc assoc_set flat_map snd]; [discriminate|].
+    cbn [flat_map snd] in H. apply Forall_app in H. destruct H as [H1 H2].
+    destruct (str_eqb file k); intros Ea.
+    + inversion Ea; subst. cbn [flat_map snd]. apply Forall_app. split; [|exact H2]. apply Forall_app. split; [exact H1|constructor; [exact Ht|constructor]].
+    + cbn [flat_map snd]. apply Forall_app. split; [exact H1|]. apply IH; assumption.
+  - rewrite flat_map_app. apply Forall_app. split; [exact H|]. cbn. constructor; [exact Ht|constructor].
+Qed.
+
+Lemma collect_types_keeps file lines exts : forall tds i s,
+  Forall (fun td => ext_has_meta td /\ NoDup (keys (td_rels td))) (ct_exts exts tds i) ->
+  mstate_ok s -> mstate_ok (collect_types file lines exts tds i s).
+Proof.
+  induction tds as [|td tds IH]; intros i s Hx Hs; [exact Hs|].
+  cbn [collect_types]. cbn [ct_exts] in Hx. fold (is_ext exts i td) in *. destruct (is_ext exts i td) eqn:Ex.
+  - rewrite andb_false_r. inversion Hx as [|? ? Ht Hx']; subst. apply IH; [exact Hx'|].
+    destruct Hs as [H1 H2]. split; [exact H1|]. cbn [ms_ext]. apply Forall_assoc_append; assumption.
+  - rewrite andb_true_r. destruct (mem_str (td_name td) (ms_types s)); [apply IH; [exact Hx|exact Hs]|].
+    destruct (td_meta td) as [md|] eqn:Em; apply IH; try exact Hx.
+    + destruct Hs as [H1 H2]. split; [|exact H2]. cbn [ms_raw]. apply Forall_app. split; [exact H1|].
+      constructor; [unfold meta_some; cbn; discriminate|constructor].
+    + exact Hs.
+Qed.
+
+Lemma collect_conds_total file lines : forall cs s,
+  Forall (fun p : str * condition => c_meta (snd p) <> None) cs ->
+  exists s', collect_conds file lines cs s = Some s' /\ ms_raw s' = ms_raw s /\ ms_ext s' = ms_ext s.
+Proof.
+  induction cs as [|[n c] cs IH]; intros s H; [exists s; auto|]. inversion H as [|? ? Hm H']; subst. cbn [collect_conds].
+  destruct (assoc n (ms_conds s)).
+  - destruct (IH (with_errs s [MConflict (lit "duplicate condition " ++ n) file (construct_position lines (condition_line n lines) n)]) H')
+      as (s' & E & R & X). exists s'. auto.
+  - cbn in Hm. destruct (c_meta c) as [md|]; [|contradiction].
+    match goal with |- context [collect_conds file lines cs ?s1] => destruct (IH s1 H') as (s' & E & R & X) end.
+    exists s'. auto.
+Qed.
+
+Lemma collect_files_total : forall fs k s,
+  (forall f, In f fs -> match dsl_to_model (mf_text f) with DPanic _ => False | _ => True end) ->
+  Forall (fun td => ext_has_meta td /\ NoDup (keys (td_rels td))) (exts_of fs) ->
+  Forall (fun p : str * condition => c_meta (snd p) <> None) (conds_of fs) ->
+  mstate_ok s ->
+  exists s', collect_files fs k s = Ok s' /\ mstate_ok s'.
+Proof.
+  induction fs as [|f fs IH]; intros k s Hp Hx Hc Hs; [exists s; auto|].
+  unfold exts_of, conds_of in Hx, Hc. cbn [flat_map] in Hx, Hc. apply Forall_app in Hx. apply Forall_app in Hc.
+  destruct Hx as [Hx1 Hx2]. destruct Hc as [Hc1 Hc2].
+  assert (Hp' : forall f0, In f0 fs -> match dsl_to_model (mf_text f0) with DPanic _ => False | _ => True end)
+    by (intros f0 Hin; apply Hp; right; exact Hin).
+  specialize (Hp f (or_introl eq_refl)). cbn [collect_files].
+  unfold file_exts, file_conds, module_of in Hx1, Hc1.
+  destruct (dsl_to_model (mf_text f)) as [m exts md| | |]; [| | |contradiction].
+  - destruct (is_empty (m_schema m)) eqn:Es; cbn [negb].
+    + match goal with |- context [collect_types ?a ?b ?c ?d ?e ?s0] =>
+        assert (Hs1 : mstate_ok (collect_types a b c d e s0)) by (apply collect_types_keeps; [exact Hx1|exact Hs]);
+        destruct (collect_conds_total a b (stable_sort pair_cmp (m_conds m)) (collect_types a b c d e s0) Hc1) as (s2 & E2 & R2 & X2)
+      end.
+      rewrite E2. apply IH; auto. destruct Hs1 as [A B]. split; [rewrite R2; exact A|rewrite X2; exact B].
+    + apply IH; auto.
+  - apply IH; auto.
+  - apply IH; auto.
+Qed.
+
+Theorem merge_total fs v :
+  (forall f, In f fs -> match dsl_to_model (mf_text f) with DPanic _ => False | _ => True end) ->
+  wf_modules fs -> is_panic (merge fs v) = false.
+Proof.
+  intros Hp Hwf. unfold merge.
+  assert (Hx : Forall (fun td => ext_has_meta td /\ NoDup (keys (td_rels td))) (exts_of fs)).
+  { apply Forall_forall. intros td Hin. split.
+    - pose proof (wf_ext_meta _ Hwf) as W. rewrite Forall_forall in W. exact (W td Hin).
+    - pose proof (wf_rel_keys _ Hwf) as W. rewrite Forall_forall in W. apply W. apply in_or_app. right. exact Hin. }
+  destruct (collect_files_total fs 0 init_mstate Hp Hx (wf_cond_meta _ Hwf)) as (s & Es & [A B]).
+  { split; [constructor|constructor]. }
+  rewrite Es. destruct (apply_all_seq (ms_lines s) (ms_ext s) (ms_raw s) (ms_errs s) A B) as (raw' & more & Ea & _).
+  rewrite Ea. destruct (ms_errs s ++ more); reflexivity.
+Qed.
